@@ -495,6 +495,14 @@ func genSchedPair(seed uint64, prop, tier, mode string) *Plan {
 	return p
 }
 
+// stormExtra: the opening burst does not eat into a client's ordinary ops.
+func stormExtra(storm string, n int) int {
+	if storm == "" {
+		return 0
+	}
+	return n
+}
+
 func genSched(seed uint64, prop, tier, mode string) *Plan {
 	if strings.HasPrefix(mode, "fgpair") {
 		return genSchedPair(seed, prop, tier, mode)
@@ -575,6 +583,29 @@ func genSched(seed uint64, prop, tier, mode string) *Plan {
 	shared := len(hg.mregs)
 	p.Knobs["shared_registries"] = shared
 
+	// ---- a storm: in a share of the runs every client opens with a burst of the same kind of
+	// registry operation with related arguments (filters whose source lists share their first
+	// entries and differ in the rest, overlapping name lists, listings) - all clients are then
+	// inside the same registry code, cold, at the same time
+	storm := ""
+	if (race && g.Chance(0.6)) || (!race && g.Chance(0.25)) {
+		storm = pick(g, []string{"filter-sources", "filter-sources", "filter-names", "filter-mixed", "listings"})
+	}
+	p.Knobs["storm"] = storm
+	stormSrcs := meta.sources()
+	stormHead := []string{pick(g, stormSrcs)}
+	if g.Chance(0.4) {
+		stormHead = append(stormHead, pick(g, stormSrcs))
+	}
+	stormNames := func() []string {
+		var out []string
+		for _, j := range g.subset(len(meta.Names), g.Range(3, 40)) {
+			out = append(out, meta.Names[j])
+		}
+		return out
+	}()
+	stormN := g.Range(2, 6)
+
 	// ---- clients: own objects, ops over shared registries (+ own filtered ones)
 	for c := 0; c < K; c++ {
 		var ops []Op
@@ -613,7 +644,52 @@ func genSched(seed uint64, prop, tier, mode string) *Plan {
 			}
 			return g.Intn(n)
 		}
-		for len(ops) < opsPer {
+		for k := 0; storm != "" && k < stormN; k++ {
+			var o *FilterOpts
+			kind := storm
+			if kind == "filter-mixed" {
+				kind = pick(g, []string{"filter-sources", "filter-names", "listings"})
+			}
+			switch kind {
+			case "filter-sources":
+				o = &FilterOpts{}
+				list := append([]string(nil), stormHead...)
+				for t := g.Range(1, 3); t > 0; t-- {
+					list = append(list, pick(g, stormSrcs))
+				}
+				if g.Chance(0.8) {
+					o.IncludeSources = list
+				} else {
+					o.ExcludeSources = list
+				}
+			case "filter-names":
+				o = &FilterOpts{}
+				list := append([]string(nil), stormNames[:g.Range(1, len(stormNames))]...)
+				for t := g.Range(0, 3); t > 0; t-- {
+					list = append(list, pick(g, meta.Names))
+				}
+				if g.Chance(0.7) {
+					o.IncludeNames = list
+				} else {
+					o.ExcludeNames = list
+				}
+			default:
+				ops = append(ops, Op{K: pick(g, []string{"names", "sources", "writejson", "observe", "defaultcfg"}), Reg: 0, Note: "storm"})
+				continue
+			}
+			r := 0
+			if shared > 1 && g.Chance(0.3) {
+				r = g.Intn(shared)
+			}
+			ops = append(ops, Op{K: "filter", Reg: r, Opts: o, Note: "storm"})
+			if v := modelFilter(meta, regModel(r), o); !v.Err {
+				local = append(local, &ModelReg{Sel: v.Sel, Cfg: regModel(r).Cfg})
+				if g.Chance(0.5) {
+					ops = append(ops, Op{K: "names", Reg: shared + len(local) - 1, Note: "storm"})
+				}
+			}
+		}
+		for len(ops) < opsPer+stormExtra(storm, stormN) {
 			w := []int{60, 10, 4, 3, 3, 3, 3, 2, 3}
 			if race {
 				w = []int{50, 14, 6, 5, 5, 5, 5, 4, 6}
@@ -622,7 +698,7 @@ func genSched(seed uint64, prop, tier, mode string) *Plan {
 			case 0:
 				ops = append(ops, Op{K: "lint", Obj: pick(g, mine), Reg: pickReg(), Fresh: g.Chance(0.3)})
 			case 1:
-				if len(local) < 3 {
+				if len(local) < 8 {
 					r := pickReg()
 					o := genFilterOpts(g, meta, regModel(r), 0.05)
 					ops = append(ops, Op{K: "filter", Reg: r, Opts: o})
